@@ -439,6 +439,8 @@ pub fn into_report(acc: JsonAcc, crashes: Vec<Crash>, report: &mut Report) {
         .extra
         .insert("violation_counts".into(), json!(acc.violation_counts));
     report.extra.insert("counters".into(), json!(acc.counters));
+    let mut crashes = crashes;
+    crashes.sort_by_key(|c| c.last_exec.is_none());
     for c in crashes {
         report.violations.push(Violation {
             clause: "process-died-or-hung".into(),
